@@ -477,6 +477,26 @@ def after_modification_case(draw):
     return {"kind": "lines", "lines": lines, "expect_ok": ok, "what": "constraint_below_a_modification"}
 
 
+@st.composite
+def same_condition_text_case(draw):
+    """two nodes carry the character-identical condition and equal numbers in different units: each is judged on its own"""
+    n = draw(st.sampled_from([5, 2, 20]))
+    small, big = draw(st.sampled_from([("mm", "cm"), ("cm", "m"), ("ms", "s")]))
+    lim = f"1 {big}" if n > 1 else f"10 {big}"
+    second_ok = draw(st.booleans())
+    first = [f"gap float = {n} {small}", f'  !condition ("{{?}} < {n + 1} {big}")']
+    second = [f"wall float = {n} {small if second_ok else big}", f'  !condition ("{{?}} < {n + 1} {big}")']
+    # the limit (n+1) big units: n small units are below it, n big units are below it as well -> use a limit between them
+    lim_txt = f"{n * 2} {small}"
+    first[1] = f'  !condition ("{{?}} < {lim_txt}")'
+    second[1] = f'  !condition ("{{?}} < {lim_txt}")'
+    lines = first + second
+    if draw(st.booleans()) and not second_ok:
+        # ... or the violating value arrives by a later modification in the other unit
+        lines = first + [f"wall float = {n} {small}", second[1], f"wall = {n} {big}"]
+    return {"kind": "lines", "lines": lines, "expect_ok": second_ok, "what": "same_condition_text_on_two_nodes"}
+
+
 def strategies(tier):
     return {"numeric": (numeric_case(), 2500, 60000), "string": (string_case(), 800, 20000), "bool": (bool_case(), 200, 4000),
             "array": (array_case(), 600, 12000), "declaration": (decl_case(), 150, 2000),
@@ -485,7 +505,8 @@ def strategies(tier):
             "two_conditions": (two_conditions_case(), 300, 6000), "array_redef": (array_redef_case(), 300, 6000),
             "custom_unit_options": (custom_unit_options_case(), 250, 5000), "format_array": (format_array_case(), 150, 3000),
             "format_multiline": (format_multiline_case(), 150, 3000), "mixed_joiners": (mixed_joiners_case(), 300, 6000),
-            "zero": (zero_case(), 300, 6000), "after_modification": (after_modification_case(), 300, 6000)}
+            "zero": (zero_case(), 300, 6000), "after_modification": (after_modification_case(), 300, 6000),
+            "same_condition_text": (same_condition_text_case(), 150, 3000)}
 
 
 # --------------------------------------------------------------------------- rendering
